@@ -57,10 +57,82 @@ Proof. intros A i t x. unfold tclear. destruct (_ && _); auto. apply replace_nth
 Lemma zremove_forall : forall P x l, Forall P l -> Forall P (zremove x l).
 Proof. intros. unfold zremove. rewrite Forall_forall in *. intros y Hy. apply filter_In in Hy. apply H, Hy. Qed.
 
+(* reading tables *)
+Lemma tget_replace : forall A (t : tbl A) n v i, (n < length t)%nat ->
+  tget i (replace_nth n v t) = if i =? Z.of_nat n then v else tget i t.
+Proof.
+  intros A t n v i Hn. unfold tget, znth. rewrite replace_nth_length.
+  destruct ((i <? 0) || (Z.of_nat (length t) <=? i)) eqn:E.
+  - destruct (i =? Z.of_nat n) eqn:E2; [lia|reflexivity].
+  - destruct (i =? Z.of_nat n) eqn:E2.
+    + replace (Z.to_nat i) with n by lia. clear - Hn. revert n Hn. induction t as [|a t IH]; intros n Hn; simpl in *; [lia|].
+      destruct n; simpl; [destruct v; reflexivity|]. apply IH. lia.
+    + assert (Hne : Z.to_nat i <> n) by lia. clear - Hne. revert n Hne. generalize (Z.to_nat i) as m.
+      induction t as [|a t IH]; intros m n Hne; simpl; [destruct n; reflexivity|].
+      destruct n, m; simpl; try reflexivity; try congruence. apply IH. congruence.
+Qed.
+
+Lemma tget_app : forall A (t : tbl A) v i,
+  tget i (t ++ [v]) = if i =? Z.of_nat (length t) then v else tget i t.
+Proof.
+  intros A t v i. unfold tget, znth. rewrite app_length. simpl.
+  destruct (i =? Z.of_nat (length t)) eqn:E.
+  - replace ((i <? 0) || (Z.of_nat (length t + 1) <=? i)) with false by lia.
+    rewrite nth_error_app2 by lia. replace (Z.to_nat i - length t)%nat with 0%nat by lia. simpl. destruct v; reflexivity.
+  - destruct ((i <? 0) || (Z.of_nat (length t) <=? i)) eqn:E2.
+    + replace ((i <? 0) || (Z.of_nat (length t + 1) <=? i)) with true by lia. reflexivity.
+    + replace ((i <? 0) || (Z.of_nat (length t + 1) <=? i)) with false by lia.
+      rewrite nth_error_app1 by lia. reflexivity.
+Qed.
+
+Lemma tget_tclear : forall A (t : tbl A) n i, tget i (tclear n t) = if i =? n then None else tget i t.
+Proof.
+  intros A t n i. unfold tclear. destruct ((0 <=? n) && (n <? Z.of_nat (length t))) eqn:E.
+  - rewrite tget_replace by lia. replace (Z.of_nat (Z.to_nat n)) with n by lia. reflexivity.
+  - destruct (i =? n) eqn:E2; [|reflexivity]. unfold tget, znth.
+    replace ((i <? 0) || (Z.of_nat (length t) <=? i)) with true by lia. reflexivity.
+Qed.
+
+Lemma tget_in : forall A i (t : tbl A) a, tget i t = Some a -> In (Some a) t.
+Proof. intros A i t a H. apply tget_some in H. destruct H as [_ H]. eapply nth_error_In; eauto. Qed.
+
+(* the ids of the free list name empty slots *)
+Definition slots_free {A} (g : idgen) (t : tbl A) : Prop := forall x, In x (g_free g) -> tget x t = None.
+
 (* allocation: gen_next followed by tput *)
-Lemma alloc_ok : forall A (g : idgen) (t : tbl A) (v : A), gen_ok g (length t) -> g_i g < LIM ->
+Lemma alloc_ok : forall A (g : idgen) (t : tbl A) (v : A), gen_ok g (length t) -> slots_free g t -> g_i g < LIM ->
   exists id g' t', gen_next g = Ok (id, g') /\ tput id v t = Ok t' /\ gen_ok g' (length t') /\
-    g_i g <= g_i g' <= g_i g + 1 /\ (forall x, In x t' -> x = Some v \/ In x t).
+    g_i g <= g_i g' <= g_i g + 1 /\ (forall x, In x t' -> x = Some v \/ In x t) /\
+    slots_free g' t' /\ tget id t = None /\ (forall i, tget i t' = if i =? id then Some v else tget i t).
+Proof.
+  intros A g t v [Hi Hf] Hsl Hl. unfold gen_next.
+  destruct (list_min (g_free g)) as [m|] eqn:E.
+  - apply list_min_in in E. rewrite Forall_forall in Hf. pose proof (Hf _ E) as Hm.
+    eexists _, _, _. split; [reflexivity|]. unfold tput.
+    destruct (m =? Z.of_nat (length t)) eqn:E1; [lia|].
+    replace ((0 <=? m) && (m <? Z.of_nat (length t))) with true by lia.
+    split; [reflexivity|]. rewrite replace_nth_length. simpl.
+    assert (TG : forall i, tget i (replace_nth (Z.to_nat m) (Some v) t) = if i =? m then Some v else tget i t).
+    { intros i. rewrite tget_replace by lia. replace (Z.of_nat (Z.to_nat m)) with m by lia. reflexivity. }
+    split; [split; [assumption|apply zremove_forall; rewrite Forall_forall; exact Hf]|].
+    split; [lia|]. split; [intros x Hx; apply replace_nth_in in Hx; exact Hx|].
+    split; [|split; [apply Hsl; exact E|exact TG]].
+    intros x Hx. unfold zremove in Hx. apply filter_In in Hx. destruct Hx as [Hx Hne]. rewrite TG.
+    destruct (x =? m) eqn:Exm; [discriminate|]. apply Hsl; exact Hx.
+  - apply list_min_none in E.
+    replace (g_i g =? 4294967295) with false by (unfold LIM in Hl; lia).
+    eexists _, _, _. split; [reflexivity|]. unfold tput. rewrite Hi. rewrite Z.eqb_refl.
+    split; [reflexivity|]. rewrite app_length. simpl.
+    assert (TG : forall i, tget i (t ++ [Some v]) = if i =? Z.of_nat (length t) then Some v else tget i t) by (intros; apply tget_app).
+    split; [split; simpl; [lia|rewrite E; constructor]|].
+    split; [lia|]. split; [intros x Hx; apply in_app_or in Hx; destruct Hx as [Hx|[Hx|[]]]; auto|].
+    split; [intros x Hx; simpl in Hx; rewrite E in Hx; destruct Hx|].
+    split; [|exact TG]. unfold tget, znth. replace ((Z.of_nat (length t) <? 0) || (Z.of_nat (length t) <=? Z.of_nat (length t))) with true by lia. reflexivity.
+Qed.
+
+Lemma alloc_ok0 : forall A (g : idgen) (t : tbl A) (v : A), gen_ok g (length t) -> g_i g < LIM ->
+  exists id g' t', gen_next g = Ok (id, g') /\ tput id v t = Ok t' /\ gen_ok g' (length t') /\
+    g_i g <= g_i g' <= g_i g + 1.
 Proof.
   intros A g t v [Hi Hf] Hl. unfold gen_next.
   destruct (list_min (g_free g)) as [m|] eqn:E.
@@ -69,16 +141,12 @@ Proof.
     destruct (m =? Z.of_nat (length t)) eqn:E1; [lia|].
     replace ((0 <=? m) && (m <? Z.of_nat (length t))) with true by lia.
     split; [reflexivity|]. rewrite replace_nth_length. simpl.
-    repeat split; auto; try lia.
-    + apply zremove_forall. rewrite Forall_forall. exact Hf.
-    + intros x Hx. apply replace_nth_in in Hx. exact Hx.
+    split; [split; [assumption|apply zremove_forall; rewrite Forall_forall; exact Hf]|lia].
   - apply list_min_none in E.
     replace (g_i g =? 4294967295) with false by (unfold LIM in Hl; lia).
     eexists _, _, _. split; [reflexivity|]. unfold tput. rewrite Hi. rewrite Z.eqb_refl.
     split; [reflexivity|]. rewrite app_length. simpl.
-    repeat split; simpl; try lia.
-    + rewrite E. constructor.
-    + intros x Hx. apply in_app_or in Hx. destruct Hx as [Hx|[Hx|[]]]; auto.
+    split; [split; simpl; [lia|rewrite E; constructor]|lia].
 Qed.
 
 Lemma gen_remove_ok : forall g n id, gen_ok g n -> 0 <= id < Z.of_nat n -> gen_ok (gen_remove id g) n /\ g_i (gen_remove id g) = g_i g.
@@ -87,30 +155,79 @@ Proof.
   destruct (zmem id (g_free g)); auto. constructor; auto. lia.
 Qed.
 
+Lemma gen_remove_slots : forall A (g : idgen) (t : tbl A) id, slots_free g t -> tget id t = None -> slots_free (gen_remove id g) t.
+Proof.
+  intros A g t id H Hn x Hx. unfold gen_remove in Hx. simpl in Hx.
+  destruct (zmem id (g_free g)); [apply H; exact Hx|]. destruct Hx as [<-|Hx]; [exact Hn|apply H; exact Hx].
+Qed.
+
+Lemma slots_free_tclear : forall A (g : idgen) (t : tbl A) n, slots_free g t -> slots_free g (tclear n t).
+Proof. intros A g t n H x Hx. rewrite tget_tclear. destruct (x =? n); [reflexivity|apply H; exact Hx]. Qed.
+
+Lemma slots_free_replace : forall A (g : idgen) (t : tbl A) n q q', slots_free g t ->
+  nth_error t n = Some (Some q) -> slots_free g (replace_nth n (Some q') t).
+Proof.
+  intros A g t n q q' H Hn x Hx.
+  assert (Hl : (n < length t)%nat) by (apply nth_error_Some; rewrite Hn; discriminate).
+  rewrite tget_replace by exact Hl. destruct (x =? Z.of_nat n) eqn:E; [|apply H; exact Hx].
+  exfalso. specialize (H x Hx). unfold tget, znth in H.
+  replace ((x <? 0) || (Z.of_nat (length t) <=? x)) with false in H by lia.
+  replace (Z.to_nat x) with n in H by lia. rewrite Hn in H. discriminate.
+Qed.
+
 (* ------------------------------------------------------------------ the invariant *)
-Definition ans_ok (l : list (Z * answer)) : Prop :=
-  forall id a, aget id l = Some a -> a_ready a = false -> a_st a <> AIdle.
+(* an answer that has not returned is running on a server or queued behind another answer;
+   an answer that is running or queued has not sent its Return *)
+Definition ans1_ok (a : answer) : Prop :=
+  (a_ready a = false -> a_st a <> AIdle) /\ (a_st a <> AIdle -> a_ret a = false).
+Definition ans_ok (l : list (Z * answer)) : Prop := forall id a, In (id, a) l -> ans1_ok a.
 Definition not_emb (x : cap) : Prop := match x with CEmb _ => False | _ => True end.
-Definition exp_ok (t : tbl expent) : Prop := forall x w, In (Some (x, w)) t -> not_emb x.
+(* wireRefs e = sent e - released e (cumulative ghost counters), entries exist exactly while the
+   count is positive *)
+Definition exp_count (t : tbl expent) (sent rel : list (Z * Z)) : Prop :=
+  forall id, match tget id t with
+             | Some (_, w) => w = cget id sent - cget id rel /\ 0 < w
+             | None => cget id sent = cget id rel
+             end.
+Definition exp_ok (k : core) : Prop :=
+  (forall x w, In (Some (x, w)) (k_exp k) -> not_emb x) /\ slots_free (k_egen k) (k_exp k) /\
+  exp_count (k_exp k) (k_sent k) (k_rel k).
+Definition qgen_ok (k : core) : Prop := gen_ok (k_qgen k) (length (k_qs k)) /\ slots_free (k_qgen k) (k_qs k).
 
 Definition live_inv (k : core) : Prop :=
-  gen_ok (k_qgen k) (length (k_qs k)) /\ gen_ok (k_egen k) (length (k_exp k)) /\
-  gen_ok (k_mgen k) (length (k_emb k)) /\ ans_ok (k_ans k) /\ exp_ok (k_exp k) /\
+  qgen_ok k /\ gen_ok (k_egen k) (length (k_exp k)) /\
+  gen_ok (k_mgen k) (length (k_emb k)) /\ ans_ok (k_ans k) /\ exp_ok k /\
   g_i (k_qgen k) <= k_allocs k /\ g_i (k_egen k) <= k_allocs k /\ g_i (k_mgen k) <= k_allocs k.
 
 Definition inv (s : state) : Prop := if s_shut s then s_ans s = [] else live_inv (core_of s).
 
-Lemma ans_ok_aput : forall id a l, ans_ok l -> (a_ready a = false -> a_st a <> AIdle) -> ans_ok (aput id a l).
+Lemma aget_in : forall A k (m : list (Z * A)) v, aget k m = Some v -> In (k, v) m.
 Proof.
-  intros id a l H Ha id' a' Hg. rewrite aget_aput in Hg. destruct (id' =? id).
-  - inversion Hg; subst. exact Ha.
-  - apply (H _ _ Hg).
+  induction m as [|[k0 v0] m IH]; intros v H; simpl in H; [discriminate|].
+  destruct (k0 =? k) eqn:E; [inversion H; subst; left; f_equal; lia|right; apply IH; exact H].
+Qed.
+
+Lemma adel_in : forall A k (m : list (Z * A)) x, In x (adel k m) -> In x m.
+Proof.
+  induction m as [|[k0 v0] m IH]; intros x H; simpl in *; [exact H|].
+  destruct (k0 =? k); [right; apply IH; exact H|]. destruct H as [H|H]; [left; exact H|right; apply IH; exact H].
+Qed.
+
+Lemma ans_ok_aput : forall id a l, ans_ok l -> ans1_ok a -> ans_ok (aput id a l).
+Proof.
+  intros id a l H Ha id' a' Hin. unfold aput in Hin. destruct Hin as [E|Hin].
+  - inversion E; subst. exact Ha.
+  - apply adel_in in Hin. apply (H _ _ Hin).
 Qed.
 
 Lemma ans_ok_adel : forall id l, ans_ok l -> ans_ok (adel id l).
-Proof.
-  intros id l H id' a' Hg. rewrite aget_adel in Hg. destruct (id' =? id); [discriminate|]. apply (H _ _ Hg).
-Qed.
+Proof. intros id l H id' a' Hin. apply adel_in in Hin. apply (H _ _ Hin). Qed.
+
+(* the standard cases of [ans1_ok] *)
+Lemma ans1_done : forall a, a_ready a = true -> a_st a = AIdle -> ans1_ok a.
+Proof. intros a H1 H2. split; [rewrite H1; discriminate|rewrite H2; intros H; exfalso; apply H; reflexivity]. Qed.
+Lemma ans1_busy : forall a, a_st a <> AIdle -> a_ret a = false -> ans1_ok a.
+Proof. intros a H1 H2. split; auto. Qed.
 
 (* live state: the good outcome of a helper that may allocate at most w ids *)
 Definition live (s : state) : Prop := s_shut s = false /\ live_inv (core_of s).
@@ -233,11 +350,11 @@ Qed.
 
 (* a live state stays live when only the export side changes consistently *)
 Lemma live_exp : forall s s1, live s -> frame_x s s1 ->
-  gen_ok (s_egen s1) (length (s_exp s1)) -> exp_ok (s_exp s1) -> g_i (s_egen s1) <= s_allocs s1 ->
+  gen_ok (s_egen s1) (length (s_exp s1)) -> exp_ok (core_of s1) -> g_i (s_egen s1) <= s_allocs s1 ->
   s_allocs s <= s_allocs s1 -> live s1.
 Proof.
   intros s s1 [Hs (Gq & Ge & Gm & A & X & Bq & Be & Bm)] (F1 & F2 & F3 & F4 & F5 & F6 & F7) Ge1 X1 Be1 Al.
-  split; [congruence|]. unfold live_inv in *. simpl in *.
+  split; [congruence|]. unfold live_inv, qgen_ok in *. simpl in *.
   rewrite F1, F2, F3, F6, F5.
   split; [exact Gq|]. split; [exact Ge1|]. split; [exact Gm|]. split; [exact A|]. split; [exact X1|].
   split; [lia|]. split; [exact Be1|lia].
@@ -255,60 +372,94 @@ Proof.
     replace (Z.to_nat (id - i)) with (S (Z.to_nat (id - (i + 1)))) by lia. exact H.
 Qed.
 
-Lemma exp_ok_replace : forall t n x w, exp_ok t -> not_emb x -> exp_ok (replace_nth n (Some (x, w)) t).
+Lemma cget_cadd : forall k k' d m, cget k' (cadd k d m) = if k' =? k then cget k m + d else cget k' m.
 Proof.
-  intros t n x w H Hx y w' Hin. apply replace_nth_in in Hin. destruct Hin as [E|Hin].
-  - inversion E; subst; exact Hx.
-  - eapply H; eauto.
+  intros. unfold cadd, cget at 1. rewrite aget_aput. destruct (k' =? k) eqn:E; [|reflexivity].
+  assert (k' = k) by lia. subst. reflexivity.
 Qed.
+
+Lemma nth_tget : forall A (t : tbl A) n a, nth_error t n = Some (Some a) -> tget (Z.of_nat n) t = Some a.
+Proof.
+  intros A t n a H. assert (Hl : (n < length t)%nat) by (apply nth_error_Some; rewrite H; discriminate).
+  unfold tget, znth. replace ((Z.of_nat n <? 0) || (Z.of_nat (length t) <=? Z.of_nat n)) with false by lia.
+  rewrite Nat2Z.id, H. reflexivity.
+Qed.
+
+(* the export side after sendCap found / made an entry, after releaseExport *)
+Lemma exp_ok_bump : forall k t' id x y w, exp_ok k -> not_emb x -> 0 <= id ->
+  nth_error (k_exp k) (Z.to_nat id) = Some (Some (y, w)) ->
+  t' = replace_nth (Z.to_nat id) (Some (x, w + 1)) (k_exp k) ->
+  exp_ok (mkCore (k_shut k) (k_qs k) (k_qgen k) (k_ans k) t' (k_egen k) (k_emb k) (k_mgen k) (k_allocs k) (k_queue k)
+                 (cadd id 1 (k_sent k)) (k_rel k)).
+Proof.
+  intros k t' id x y w (X1 & X2 & X3) Hx Hid Hn ->. 
+  assert (Hl : (Z.to_nat id < length (k_exp k))%nat) by (apply nth_error_Some; rewrite Hn; discriminate).
+  split; [|split]; simpl.
+  - intros x0 w0 Hin. apply replace_nth_in in Hin. destruct Hin as [E|Hin]; [inversion E; subst; exact Hx|eapply X1; eauto].
+  - eapply slots_free_replace; eauto.
+  - intros i. rewrite tget_replace by exact Hl. rewrite cget_cadd. replace (Z.of_nat (Z.to_nat id)) with id by lia.
+    specialize (X3 i). destruct (i =? id) eqn:E; [|exact X3].
+    assert (i = id) by lia. subst i. apply nth_tget in Hn. replace (Z.of_nat (Z.to_nat id)) with id in Hn by lia.
+    assert (T : @tget expent id (k_exp k) = Some (y, w)) by exact Hn. rewrite T in X3. lia.
+Qed.
+
+Lemma exp_ok_new : forall k t' g' id x, exp_ok k -> not_emb x ->
+  (forall o, In o t' -> o = Some (x, 1) \/ In o (k_exp k)) -> slots_free g' t' -> tget id (k_exp k) = None ->
+  (forall i, tget i t' = if i =? id then Some (x, 1) else tget i (k_exp k)) -> forall al,
+  exp_ok (mkCore (k_shut k) (k_qs k) (k_qgen k) (k_ans k) t' g' (k_emb k) (k_mgen k) al (k_queue k)
+                 (cadd id 1 (k_sent k)) (k_rel k)).
+Proof.
+  intros k t' g' id x (X1 & X2 & X3) Hx Hin Hsl Hnone TG al. split; [|split]; simpl.
+  - intros x0 w0 H. apply Hin in H. destruct H as [E|H]; [inversion E; subst; exact Hx|eapply X1; eauto].
+  - exact Hsl.
+  - intros i. rewrite TG, cget_cadd. specialize (X3 i). destruct (i =? id) eqn:E; [|exact X3].
+    assert (i = id) by lia. subst i. rewrite Hnone in X3. lia.
+Qed.
+
+Lemma exp_ok_ext : forall k k', k_exp k' = k_exp k -> k_egen k' = k_egen k -> k_sent k' = k_sent k -> k_rel k' = k_rel k ->
+  exp_ok k -> exp_ok k'.
+Proof. intros k k' H1 H2 H3 H4 H. unfold exp_ok in *. rewrite H1, H2, H3, H4. exact H. Qed.
 
 Lemma send_cap_ok : forall x s, live s -> not_emb x -> s_allocs s < LIM ->
   okp (send_cap cfg_fixed x s) (fun r => let '(s1, d, oe) := r in good 1 s s1 /\ frame_x s s1).
 Proof.
   intros x s L Hx Hl. pose proof L as [Hs (Gq & Ge & Gm & A & X & Bq & Be & Bm)].
-  simpl in Gq, Ge, Gm, A, X, Bq, Be, Bm.
+  unfold qgen_ok in Gq. simpl in Gq, Ge, Gm, A, Bq, Be, Bm.
+  assert (SAME : good 1 s s /\ frame_x s s) by (split; [apply good_mono with 0; [apply good_refl; auto|lia]|apply frame_x_refl]).
+  (* the two ways an export entry is used *)
+  assert (FOUND : forall id w, find_export x (s_exp s) 0 = Some (id, w) ->
+            let s1 := set_sent (cadd id 1 (s_sent s)) (set_exp (replace_nth (Z.to_nat id) (Some (x, w + 1)) (s_exp s)) s) in
+            good 1 s s1 /\ frame_x s s1).
+  { intros id w E s1. apply find_export_some in E. destruct E as (y & E & Hid). rewrite Z.sub_0_r in E.
+    split; [|repeat split]. split; [|simpl; split; [lia|reflexivity]].
+    eapply live_exp; eauto; try (repeat split; fail); simpl; try lia.
+    - rewrite replace_nth_length. exact Ge.
+    - apply (exp_ok_bump (core_of s) _ id x y w X Hx Hid E eq_refl). }
+  assert (NEW : find_export x (s_exp s) 0 = None -> forall s0, core_of s0 = core_of s ->
+            okp (do '(id, g) <- gen_next (s_egen s);
+                 do t <- tput id (x, 1) (s_exp s);
+                 Ok (set_sent (cadd id 1 (s_sent s)) (set_allocs (s_allocs s + 1) (set_egen g (set_exp t s0))), DSH id, Some id))
+                (fun r => let '(s1, d, oe) := r in good 1 s s1 /\ frame_x s s1)).
+  { intros _ s0 C0. destruct X as (X1 & X2 & X3). simpl in X1, X2, X3.
+    destruct (alloc_ok (cap * Z)%type (s_egen s) (s_exp s) (x, 1) Ge X2) as (id & g' & t' & H1 & H2 & G' & Hg & Hin & Hsl & Hnone & TG); [simpl in *; lia|].
+    rewrite H1; cbn [bind]; cbv beta iota; rewrite H2; cbn [bind]; cbv beta iota. cbn [okp].
+    pose proof (frame_x_core _ _ C0) as (F1 & F2 & F3 & F4 & F5 & F6 & F7).
+    assert (AL : s_allocs s0 = s_allocs s) by (apply allocs_core; exact C0).
+    split; [|unfold frame_x; simpl; repeat split; assumption].
+    split; [|simpl; split; [lia|exact F1]].
+    eapply live_exp; eauto; simpl; try (unfold frame_x; simpl; repeat split; assumption); try lia.
+    pose proof (exp_ok_new (core_of s) t' g' id x (conj X1 (conj X2 X3)) Hx Hin Hsl Hnone TG (s_allocs s + 1)) as E.
+    eapply exp_ok_ext; [| | | |exact E]; simpl; try reflexivity.
+    change (k_rel (core_of s0) = k_rel (core_of s)). rewrite C0. reflexivity. }
   unfold send_cap. destruct x; try contradiction.
-  - simpl. split; [apply good_mono with 0; [apply good_refl; auto|lia]|apply frame_x_refl].
-  - (* CErr *) simpl.
-    destruct (find_export CErr (s_exp s) 0) as [[id w]|] eqn:E.
-    + simpl. apply find_export_some in E. destruct E as (y & E & _).
-      split; [|repeat split].
-      split; [|simpl; split; [lia|reflexivity]]. eapply live_exp; eauto; try (repeat split; fail); simpl; try lia.
-      * rewrite replace_nth_length. exact Ge.
-      * apply exp_ok_replace; simpl; auto.
-    + destruct (alloc_ok (cap * Z)%type (s_egen s) (s_exp s) (CErr, 1) Ge) as (id & g' & t' & H1 & H2 & G' & Hg & Hin); [simpl in *; lia|].
-      rewrite H1; cbn [bind]; cbv beta iota; rewrite H2; cbn [bind]; cbv beta iota. simpl.
-      split; [|repeat split].
-      split; [|simpl; split; [lia|reflexivity]]. eapply live_exp; eauto; try (repeat split; fail); simpl in *; try lia.
-      intros y w Hy. apply Hin in Hy. destruct Hy as [Hy|Hy]; [inversion Hy; simpl; auto|eapply X; eauto].
-  - (* CLocal *) simpl.
-    destruct (find_export (CLocal j) (s_exp s) 0) as [[id w]|] eqn:E.
-    + simpl. split; [|repeat split].
-      split; [|simpl; split; [lia|reflexivity]]. eapply live_exp; eauto; try (repeat split; fail); simpl; try lia.
-      * rewrite replace_nth_length. exact Ge.
-      * apply exp_ok_replace; simpl; auto.
-    + destruct (alloc_ok (cap * Z)%type (s_egen s) (s_exp s) (CLocal j, 1) Ge) as (id & g' & t' & H1 & H2 & G' & Hg & Hin); [simpl in *; lia|].
-      rewrite H1; cbn [bind]; cbv beta iota; rewrite H2; cbn [bind]; cbv beta iota. simpl.
-      split; [|repeat split].
-      split; [|simpl; split; [lia|reflexivity]]. eapply live_exp; eauto; try (repeat split; fail); simpl in *; try lia.
-      intros y w Hy. apply Hin in Hy. destruct Hy as [Hy|Hy]; [inversion Hy; simpl; auto|eapply X; eauto].
+  - exact SAME.
+  - (* CErr *) simpl. destruct (find_export CErr (s_exp s) 0) as [[id w]|] eqn:E; [exact (FOUND id w eq_refl)|apply (NEW eq_refl s eq_refl)].
+  - (* CLocal *) simpl. destruct (find_export (CLocal j) (s_exp s) 0) as [[id w]|] eqn:E; [exact (FOUND id w eq_refl)|].
+    apply (NEW eq_refl (lref 1 j s) eq_refl).
   - (* CImp *)
-    destruct (imp_current i g s).
-    + simpl. split; [apply good_mono with 0; [apply good_refl; auto|lia]|apply frame_x_refl].
-    + destruct (find_export (CImp i g) (s_exp s) 0) as [[id w]|] eqn:E.
-      * simpl. split; [|repeat split].
-        split; [|simpl; split; [lia|reflexivity]]. eapply live_exp; eauto; try (repeat split; fail); simpl; try lia.
-        -- rewrite replace_nth_length. exact Ge.
-        -- apply exp_ok_replace; simpl; auto.
-      * destruct (alloc_ok (cap * Z)%type (s_egen s) (s_exp s) (CImp i g, 1) Ge) as (id & g' & t' & H1 & H2 & G' & Hg & Hin); [simpl in *; lia|].
-        rewrite H1; cbn [bind]; cbv beta iota; rewrite H2; cbn [bind]; cbv beta iota.
-        pose proof (core_addref (CImp i g) s) as CA.
-        pose proof (frame_x_core _ _ CA) as (F1 & F2 & F3 & F4 & F5 & F6 & F7).
-        assert (AL : s_allocs (addref_cap (CImp i g) s) = s_allocs s) by (apply allocs_core; exact CA).
-        split; [|unfold frame_x; simpl; repeat split; assumption].
-        split; [|simpl; split; [lia|exact F1]].
-        eapply live_exp; eauto; simpl; try (unfold frame_x; simpl; repeat split; assumption); try lia.
-        intros y w Hy. apply Hin in Hy. destruct Hy as [Hy|Hy]; [inversion Hy; simpl; auto|eapply X; eauto].
+    destruct (imp_current i g s); [exact SAME|].
+    destruct (find_export (CImp i g) (s_exp s) 0) as [[id w]|] eqn:E; [exact (FOUND id w eq_refl)|].
+    apply (NEW eq_refl (addref_cap (CImp i g) s) (core_addref _ _)).
 Qed.
 
 Lemma frame_x_live_allocs : forall s s1, frame_x s s1 -> True.
@@ -340,23 +491,32 @@ Lemma release_export_ok : forall id n s, live s ->
   let '(s1, oc, err) := release_export id n s in good 0 s s1 /\ frame_x s s1.
 Proof.
   intros id n s L. pose proof L as [Hs (Gq & Ge & Gm & A & X & Bq & Be & Bm)].
-  simpl in Gq, Ge, Gm, A, X, Bq, Be, Bm.
+  simpl in Ge, Gm, A, Bq, Be, Bm. destruct X as (X1 & X2 & X3). simpl in X1, X2, X3.
   unfold release_export. destruct (tget id (s_exp s)) as [[x w]|] eqn:E.
-  - apply tget_some in E. destruct E as [Hid E].
-    assert (Hx : not_emb x) by (eapply X; eapply nth_error_In; eauto).
-    destruct (n =? w).
+  - pose proof (tget_some _ _ _ _ E) as [Hid En].
+    assert (Hx : not_emb x) by (eapply X1; eapply nth_error_In; eauto).
+    assert (Hl : (Z.to_nat id < length (s_exp s))%nat) by lia.
+    pose proof (X3 id) as X3id. rewrite E in X3id.
+    destruct (n =? w) eqn:Enw.
     + split; [|repeat split]. split; [|simpl; split; [lia|reflexivity]].
       destruct (gen_remove_ok _ _ id Ge Hid) as [GR GI].
       eapply live_exp; eauto; try (repeat split; fail); simpl; try lia.
-      all: try (rewrite tclear_length; exact GR).
-      all: try (intros y w' Hy; apply tclear_in in Hy; destruct Hy as [Hy|Hy]; [discriminate|eapply X; eauto]).
-      all: try (rewrite GI; exact Be).
-    + destruct (w <? n).
+      * rewrite tclear_length. exact GR.
+      * split; [|split]; simpl.
+        -- intros y w' Hy. apply tclear_in in Hy. destruct Hy as [Hy|Hy]; [discriminate|eapply X1; eauto].
+        -- apply gen_remove_slots; [apply slots_free_tclear; exact X2|]. rewrite tget_tclear, Z.eqb_refl. reflexivity.
+        -- intros i. rewrite tget_tclear, cget_cadd. specialize (X3 i). destruct (i =? id) eqn:Ei; [|exact X3].
+           assert (i = id) by lia. subst i. lia.
+    + destruct (w <? n) eqn:Ewn.
       * split; [apply good_refl; auto|apply frame_x_refl].
       * split; [|repeat split]. split; [|simpl; split; [lia|reflexivity]].
         eapply live_exp; eauto; try (repeat split; fail); simpl; try lia.
-        all: try (rewrite replace_nth_length; exact Ge).
-        all: try (apply exp_ok_replace; auto).
+        -- rewrite replace_nth_length. exact Ge.
+        -- split; [|split]; simpl.
+           ++ intros y w' Hy. apply replace_nth_in in Hy. destruct Hy as [Hy|Hy]; [inversion Hy; subst; exact Hx|eapply X1; eauto].
+           ++ eapply slots_free_replace; eauto.
+           ++ intros i. rewrite tget_replace by exact Hl. rewrite cget_cadd. replace (Z.of_nat (Z.to_nat id)) with id by lia.
+              specialize (X3 i). destruct (i =? id) eqn:Ei; [|exact X3]. assert (i = id) by lia. subst i. lia.
   - split; [apply good_refl; auto|apply frame_x_refl].
 Qed.
 
@@ -414,7 +574,7 @@ Proof.
   - eapply okp_bind; [apply destroy_ok; exact L0|].
     intros [[s1 o] err] G. simpl. split; [exact G|reflexivity].
   - simpl. split; [|reflexivity]. split; [|simpl; split; [lia|reflexivity]].
-    apply live_set_ans; auto. apply ans_ok_aput; [apply (ans_of_live _ L0)|]. simpl. discriminate.
+    apply live_set_ans; auto. apply ans_ok_aput; [apply (ans_of_live _ L0)|]. apply ans1_done; reflexivity.
 Qed.
 
 (* answer.sendReturn *)
@@ -431,7 +591,7 @@ Proof.
     intros [[s3 o] err] G3. simpl. split; [|discriminate].
     destruct G1 as [_ [A1 Q1]]. destruct G3 as [L3 [A3 Q3]]. split; auto. simpl in A3, Q3. split; [lia|congruence].
   - simpl. split; auto. destruct G1 as [L1 [A1 Q1]]. split; [|simpl; split; [lia|exact Q1]].
-    apply live_set_ans; auto. apply ans_ok_aput; [apply (ans_of_live _ L2)|]. simpl. discriminate.
+    apply live_set_ans; auto. apply ans_ok_aput; [apply (ans_of_live _ L2)|]. apply ans1_done; reflexivity.
 Qed.
 
 Lemma reject_ok : forall id a s, live s ->
@@ -445,16 +605,16 @@ Proof.
   exact (good_trans0 _ _ _ G1 G2).
 Qed.
 
-Lemma deliver_ok : forall id a t s, live s -> t <> DBlock ->
+Lemma deliver_ok : forall id a t s, live s -> t <> DBlock -> a_ret a = false ->
   okp (deliver cfg_fixed id a t s) (fun r => let '(s1, o, ab) := r in good 0 s s1 /\ ab = false).
 Proof.
-  intros id a t s L Ht. unfold deliver. destruct t; try contradiction; try (apply reject_ok; auto).
+  intros id a t s L Ht Hret. unfold deliver. destruct t; try contradiction; try (apply reject_ok; auto).
   destruct (a_mok a); [|apply reject_ok; auto].
   simpl. split; [|reflexivity]. split; [|simpl; split; [lia|reflexivity]].
   assert (L0 : live (zremove_q id s)) by (apply live_zremove_q; auto).
   eapply live_core; [|reflexivity].
   apply live_set_ans; [exact L0|].
-  apply ans_ok_aput; [apply (ans_of_live _ L0)|]. simpl. discriminate.
+  apply ans_ok_aput; [apply (ans_of_live _ L0)|]. apply ans1_busy; simpl; [discriminate|exact Hret].
 Qed.
 
 Lemma pipeline_tgt_not_block : forall k rct x, pipeline_tgt k rct x <> DBlock.
@@ -484,13 +644,16 @@ Proof.
   - eapply okp_bind with (Q1 := fun x => let '(s1, o, ab) := x in good 0 s s1 /\ ab = false).
     + destruct (aget id (s_ans s)) as [a|] eqn:Ea; [|simpl; split; auto; apply good_refl; auto].
       destruct (a_st a) as [|j|p x] eqn:Est; try (simpl; split; auto; apply good_refl; auto).
+      assert (Hret : a_ret a = false).
+      { destruct (ans_of_live _ L _ _ (aget_in _ _ _ _ Ea)) as [_ H2]. apply H2. rewrite Est. discriminate. }
       destruct (eff_parent cfg_fixed r lst p =? r).
       * apply deliver_ok; auto. apply pipeline_tgt_not_block.
       * destruct (aget (eff_parent cfg_fixed r lst p) (s_ans s)) as [b|]; [|apply reject_ok; auto].
         destruct (a_ready b).
         -- destruct (a_err b); [apply reject_ok; auto|apply deliver_ok; auto; apply pipeline_tgt_not_block].
         -- simpl. split; auto. split; [|simpl; split; [lia|reflexivity]].
-           apply live_set_ans; auto. apply ans_ok_aput; [apply (ans_of_live _ L)|]. simpl. discriminate.
+           apply live_set_ans; auto. apply ans_ok_aput; [apply (ans_of_live _ L)|].
+           apply ans1_busy; simpl; [discriminate|exact Hret].
     + intros [[s1 o1] b1] [G1 E1].
       eapply okp_bind; [apply IH; apply G1|].
       intros [[s2 o2] b2] [G2 E2]. simpl. subst. split; auto.
@@ -575,7 +738,7 @@ Proof.
     change (s_shut s') with (k_shut (core_of s')). rewrite C'. apply L1. }
   destruct pt as [e|t x].
   - destruct (tget e (s_exp s1)) as [[xc w]|] eqn:Ee; [|apply UNK; reflexivity].
-    eapply okp_weaken; [apply deliver_ok; [exact L1|eapply not_block_of_exp; eauto]|].
+    eapply okp_weaken; [apply deliver_ok; [exact L1|eapply not_block_of_exp; eauto|reflexivity]|].
     intros [[s2 o2] ab] [G2 E2]. apply hpost_good. exact (good_trans0 _ _ _ G1 G2).
   - cbn [fx24 cfg_fixed negb andb]. rewrite andb_false_r. destruct (t =? id) eqn:Et; [apply UNK; reflexivity|].
     destruct (aget t (s_ans s1)) as [ta|] eqn:Eta; [|apply UNK; reflexivity].
@@ -584,15 +747,15 @@ Proof.
     + destruct (a_err ta).
       * eapply okp_weaken; [apply reject_ok; exact L1|].
         intros [[s2 o2] ab] [G2 E2]. apply hpost_good. exact (good_trans0 _ _ _ G1 G2).
-      * eapply okp_weaken; [apply deliver_ok; [exact L1|apply pipeline_tgt_not_block]|].
+      * eapply okp_weaken; [apply deliver_ok; [exact L1|apply pipeline_tgt_not_block|reflexivity]|].
         intros [[s2 o2] ab] [G2 E2]. apply hpost_good. exact (good_trans0 _ _ _ G1 G2).
-    + pose proof (ans_of_live _ L1 _ _ Eta Er) as Hst.
+    + pose proof (proj1 (ans_of_live _ L1 _ _ (aget_in _ _ _ _ Eta)) Er) as Hst.
       assert (QUEUE : forall p, hpost 0 s
          (set_queue (s_queue s1 ++ [id]) (set_ans (aput id (set_a_st (AQueued t x) (new_answer tab mok tag)) (s_ans s1)) s1), p, false)).
       { intros p. apply hpost_good. eapply good_trans0; [exact G1|].
         split; [|simpl; split; [lia|reflexivity]].
         eapply live_core; [|reflexivity]. apply live_set_ans; [exact L1|].
-        apply ans_ok_aput; [apply (ans_of_live _ L1)|]. simpl. discriminate. }
+        apply ans_ok_aput; [apply (ans_of_live _ L1)|]. apply ans1_busy; simpl; [discriminate|reflexivity]. }
       destruct (a_st ta) eqn:Est; [contradiction| |]; cbn [okp]; apply QUEUE.
 Qed.
 
@@ -604,7 +767,7 @@ Proof.
   destruct (negb (a_ret a)).
   - cbn [okp]. apply hpost_good. split; [|simpl; split; [lia|reflexivity]].
     apply live_set_ans; auto. apply ans_ok_aput; [apply (ans_of_live _ L)|].
-    simpl. intros Hr. exact (ans_of_live _ L _ _ Ea Hr).
+    exact (ans_of_live _ L _ _ (aget_in _ _ _ _ Ea)).
   - eapply okp_weaken; [apply destroy_ok; exact L|].
     intros [[s1 o] err] G. apply hpost_good. exact G.
 Qed.
@@ -669,25 +832,28 @@ Proof.
   - rewrite (IH _ _ H). lia.
 Qed.
 
-Lemma live_set_qs : forall s t, live s -> length t = length (s_qs s) -> live (set_qs t s).
+Lemma live_set_qs : forall s t, live s -> length t = length (s_qs s) -> slots_free (s_qgen s) t -> live (set_qs t s).
 Proof.
-  intros s t [Hs (Gq & Ge & Gm & A & X & B)] Hl. split; [exact Hs|]. unfold live_inv in *; simpl in *.
+  intros s t [Hs ([Gq Sq] & Ge & Gm & A & X & B)] Hl Hsl. split; [exact Hs|]. unfold live_inv, qgen_ok in *; simpl in *.
   rewrite Hl. tauto.
 Qed.
 
+Lemma qs_slots : forall s, live s -> slots_free (s_qgen s) (s_qs s).
+Proof. intros s [_ ([_ Sq] & _)]. exact Sq. Qed.
+
 Lemma new_question_ok : forall q s, live s -> s_allocs s < LIM -> q_called q = [] ->
   okp (new_question q s) (fun r => let '(s1, id) := r in live s1 /\ pot s1 <= pot s + 1 /\
-     core_of s1 = mkCore (s_shut s) (s_qs s1) (s_qgen s1) (s_ans s) (s_exp s) (s_egen s) (emb_shape (s_emb s)) (s_mgen s) (s_allocs s + 1) (s_queue s)
+     core_of s1 = mkCore (s_shut s) (s_qs s1) (s_qgen s1) (s_ans s) (s_exp s) (s_egen s) (emb_shape (s_emb s)) (s_mgen s) (s_allocs s + 1) (s_queue s) (s_sent s) (s_rel s)
      /\ s_handles s1 = s_handles s /\ s_imp s1 = s_imp s /\ s_busy s1 = s_busy s /\ s_emb s1 = s_emb s
      /\ tget id (s_qs s1) = Some q).
 Proof.
-  intros q s L Hl Hq. pose proof L as [Hs (Gq & Ge & Gm & A & X & Bq & Be & Bm)].
-  simpl in Gq, Ge, Gm, A, X, Bq, Be, Bm. unfold new_question.
-  destruct (alloc_ok question (s_qgen s) (s_qs s) q Gq) as (id & g' & t' & H1 & H2 & G' & Hg & Hin); [lia|].
+  intros q s L Hl Hq. pose proof L as [Hs ([Gq Sq] & Ge & Gm & A & X & Bq & Be & Bm)].
+  simpl in Gq, Sq, Ge, Gm, A, Bq, Be, Bm. unfold new_question.
+  destruct (alloc_ok question (s_qgen s) (s_qs s) q Gq Sq) as (id & g' & t' & H1 & H2 & G' & Hg & Hin & Hsl & Hnone & TG); [lia|].
   rewrite H1; cbn [bind]; cbv beta iota; rewrite H2; cbn [bind]; cbv beta iota. cbn [okp].
   split; [|split; [|split; [reflexivity|]]].
-  - split; [exact Hs|]. unfold live_inv; simpl.
-    split; [exact G'|]. split; [exact Ge|]. split; [exact Gm|]. split; [exact A|]. split; [exact X|]. lia.
+  - split; [exact Hs|]. unfold live_inv, qgen_ok; simpl.
+    split; [split; [exact G'|exact Hsl]|]. split; [exact Ge|]. split; [exact Gm|]. split; [exact A|]. split; [exact X|]. lia.
   - unfold pot; simpl. unfold tput in H2.
     destruct (id =? Z.of_nat (length (s_qs s))).
     + inversion H2; subst. rewrite called_total_app. rewrite Hq. simpl. lia.
@@ -722,7 +888,7 @@ Proof.
     destruct (zmem k0 done); [apply SKIP|].
     pose proof L as [Hs (Gq & Ge & Gm & A & X & Bq & Be & Bm)].
     simpl in Gq, Ge, Gm, A, X, Bq, Be, Bm. rewrite emb_shape_length in Gm.
-    destruct (alloc_ok embent (s_mgen s) (s_emb s) (mkEmb lc 1) Gm) as (e & g' & t' & H1 & H2 & G' & Hg & Hin); [simpl length in Hb; lia|].
+    destruct (alloc_ok0 embent (s_mgen s) (s_emb s) (mkEmb lc 1) Gm) as (e & g' & t' & H1 & H2 & G' & Hg); [simpl length in Hb; lia|].
     rewrite H1; cbn [bind]; cbv beta iota; rewrite H2; cbn [bind]; cbv beta iota.
     set (s1 := set_allocs (s_allocs s + 1) (set_mgen g' (set_emb t' s))).
     assert (G1 : good 1 s s1).
@@ -738,12 +904,12 @@ Qed.
 Lemma core_set_handle : forall h v s, core_of (set_handle h v s) = core_of s.
 Proof. reflexivity. Qed.
 
-Lemma live_qgen_remove : forall qid s, live s -> 0 <= qid < Z.of_nat (length (s_qs s)) ->
+Lemma live_qgen_remove : forall qid s, live s -> 0 <= qid < Z.of_nat (length (s_qs s)) -> tget qid (s_qs s) = None ->
   live (set_qgen (gen_remove qid (s_qgen s)) s).
 Proof.
-  intros qid s [Hs (Gq & Ge & Gm & A & X & Bq & Be & Bm)] Hr. split; [exact Hs|].
-  unfold live_inv in *; simpl in *. destruct (gen_remove_ok _ _ qid Gq Hr) as [G1 G2].
-  split; [exact G1|]. tauto.
+  intros qid s [Hs ([Gq Sq] & Ge & Gm & A & X & Bq & Be & Bm)] Hr Hnone. split; [exact Hs|].
+  unfold live_inv, qgen_ok in *; simpl in *. destruct (gen_remove_ok _ _ qid Gq Hr) as [G1 G2].
+  split; [split; [exact G1|apply gen_remove_slots; assumption]|]. tauto.
 Qed.
 
 Lemma handle_return_ok : forall qid rpc k s, live s -> pot s < LIM ->
@@ -753,7 +919,7 @@ Proof.
   destruct (tget qid (s_qs s)) as [q|] eqn:Eq; [|apply hpost_abort; exact L].
   pose proof (tget_some _ _ _ _ Eq) as [Hr Hn].
   set (s0 := set_qs (tclear qid (s_qs s)) s).
-  assert (L0 : live s0) by (apply live_set_qs; [exact L|apply tclear_length]).
+  assert (L0 : live s0) by (apply live_set_qs; [exact L|apply tclear_length|apply slots_free_tclear; apply qs_slots; exact L]).
   assert (P0 : pot s0 = pot s - Z.of_nat (length (q_called q))).
   { unfold pot, s0; simpl. unfold tclear. replace ((0 <=? qid) && (qid <? Z.of_nat (length (s_qs s)))) with true by lia.
     rewrite (called_total_clear _ _ _ Hn). lia. }
@@ -769,7 +935,8 @@ Proof.
   assert (FIN : forall w s2, good w s0 s2 -> w <= Z.of_nat (length (q_called q)) ->
                 live (set_qgen (gen_remove qid (s_qgen s2)) s2) /\ pot (set_qgen (gen_remove qid (s_qgen s2)) s2) <= pot s + 0).
   { intros w s2 [L2 [A2 Q2]] Hw. split.
-    - apply live_qgen_remove; [exact L2|]. rewrite Q2, Q0. exact Hr.
+    - apply live_qgen_remove; [exact L2|rewrite Q2, Q0; exact Hr|].
+      rewrite Q2. unfold s0. simpl. rewrite tget_tclear, Z.eqb_refl. reflexivity.
     - unfold pot in *; simpl in *. rewrite Q2. lia. }
   destruct (q_fin q).
   { eapply okp_bind with (Q1 := fun p => core_of (fst p) = core_of (set_qgen (gen_remove qid (s_qgen s1)) s1)); [apply release_caps_okc|].
@@ -873,7 +1040,8 @@ Proof.
   destruct G3 as [L3 [A3 Q3]].
   apply tget_some in T2. destruct T2 as [_ T2].
   split.
-  - apply live_set_qs; [exact L3|apply replace_nth_length].
+  - apply live_set_qs; [exact L3|apply replace_nth_length|].
+    eapply slots_free_replace; [apply qs_slots; exact L3|rewrite Q3; exact T2].
   - unfold pot in *. simpl. rewrite Q3. rewrite (called_total_replace_some _ _ _ _ T2). simpl. lia.
 Qed.
 
@@ -892,7 +1060,7 @@ Proof.
   destruct (q_fin q); [apply SAME|].
   apply tget_some in Eq. destruct Eq as [Hr Hn].
   set (s1 := set_qs (replace_nth (Z.to_nat q0) (Some (mark_called x q)) (s_qs s0)) s0).
-  assert (L1 : live s1) by (apply live_set_qs; [split; assumption|apply replace_nth_length]).
+  assert (L1 : live s1) by (apply live_set_qs; [split; assumption|apply replace_nth_length|eapply slots_free_replace; [apply qs_slots; split; assumption|exact Hn]]).
   assert (P1 : pot s1 <= pot s + 1).
   { unfold pot, s1; simpl. rewrite (called_total_replace_some _ _ _ _ Hn).
     pose proof (mark_called_length x q). change (s_qs s0) with (s_qs s). lia. }
@@ -967,7 +1135,7 @@ Proof.
   apply find_held_some in Ef. destruct Ef as [Hn _]. rewrite Z.sub_0_r in Hn.
   set (s1 := set_qs _ s). set (s2 := set_busy _ s1).
   assert (L2 : live s2).
-  { eapply live_core with (s := s1); [|reflexivity]. apply live_set_qs; [exact L|apply replace_nth_length]. }
+  { eapply live_core with (s := s1); [|reflexivity]. apply live_set_qs; [exact L|apply replace_nth_length|eapply slots_free_replace; [apply qs_slots; exact L|exact Hn]]. }
   assert (P2 : pot s2 <= pot s).
   { unfold pot, s2, s1; simpl. rewrite (called_total_replace_some _ _ _ _ Hn). simpl. lia. }
   destruct ((busy_get i g (s_busy s2) =? 0) && dead_mem i g (s_dead s2)).
@@ -981,7 +1149,7 @@ Lemma cancel_question_ok : forall qid q s, live s -> nth_error (s_qs s) (Z.to_na
   okp (cancel_question qid q s) (fun r => live (fst r) /\ pot (fst r) = pot s).
 Proof.
   intros qid q s L Hn. unfold cancel_question. cbn [okp fst]. split.
-  - apply live_set_qs; [exact L|apply replace_nth_length].
+  - apply live_set_qs; [exact L|apply replace_nth_length|eapply slots_free_replace; [apply qs_slots; exact L|exact Hn]].
   - unfold pot; simpl. rewrite (called_total_replace_some _ _ _ _ Hn). simpl. lia.
 Qed.
 
@@ -1018,11 +1186,12 @@ Proof.
     apply hpost_live; [eapply live_core; [exact L|exact C]|]. rewrite (pot_core _ _ C). change (pot (set_handle h HGone s)) with (pot s). lia.
 Qed.
 
-Lemma find_running_some : forall k l id a, find_running k l = Some (id, a) -> exists j, a_st a = ARunning j.
+Lemma find_running_some : forall k l id a, find_running k l = Some (id, a) -> (exists j, a_st a = ARunning j) /\ In (id, a) l.
 Proof.
   induction l as [|[id0 a0] l IH]; intros id a H; simpl in H; [discriminate|].
-  destruct (a_st a0) eqn:E; try (eapply IH; exact H).
-  destruct (a_deliv a0 =? k); [|eapply IH; exact H]. inversion H; subst. eauto.
+  destruct (a_st a0) eqn:E; try (destruct (IH _ _ H) as [H1 H2]; split; [exact H1|right; exact H2]).
+  destruct (a_deliv a0 =? k); [|destruct (IH _ _ H) as [H1 H2]; split; [exact H1|right; exact H2]].
+  inversion H; subst. split; [eauto|left; reflexivity].
 Qed.
 
 Fixpoint go_res (fs : list rfield) (n : Z) : list pfield * list (option Z) :=
@@ -1060,13 +1229,13 @@ Proof.
       - unfold pot; simpl. pose proof (called_total_nonneg (s_qs s)). destruct r; simpl; lia.
       - exact L.
       - destruct r; simpl; lia. }
-  apply find_running_some in Ef. destruct Ef as [j Hj].
+  apply find_running_some in Ef. destruct Ef as [[j Hj] Hin].
   eapply okp_bind with (Q1 := fun p => core_of (fst p) = core_of s); [apply release_caps_okc|].
   intros [s1 o1] C1. cbn [fst] in C1.
   assert (L1 : live s1) by (eapply live_core; eauto).
   set (s1' := set_ans (aput id (set_a_args [] a) (s_ans s1)) s1).
   assert (L1' : live s1').
-  { apply live_set_ans; [exact L1|]. apply ans_ok_aput; [apply (ans_of_live _ L1)|]. simpl. rewrite Hj. discriminate. }
+  { apply live_set_ans; [exact L1|]. apply ans_ok_aput; [apply (ans_of_live _ L1)|]. exact (ans_of_live _ L _ _ Hin). }
   assert (G1 : good 0 s s1').
   { split; [exact L1'|]. simpl. rewrite (allocs_core _ _ C1). split; [lia|].
     change (s_qs s1) with (k_qs (core_of s1)). rewrite C1. reflexivity. }
@@ -1230,8 +1399,13 @@ Qed.
 Lemma sinv_init : forall boot, sinv (init boot) 0.
 Proof.
   intros boot. unfold sinv. simpl. split; [|unfold pot; simpl; lia].
-  unfold live_inv, gen_ok, ans_ok, exp_ok; simpl.
-  repeat split; try constructor; try lia; try (intros; discriminate); try (intros ? ? []).
+  unfold live_inv, qgen_ok, gen_ok, ans_ok, exp_ok, slots_free, exp_count; simpl.
+  split; [split; [split; [reflexivity|constructor]|intros x []]|].
+  split; [split; [reflexivity|constructor]|].
+  split; [split; [reflexivity|constructor]|].
+  split; [intros id a []|].
+  split; [split; [intros x w []|split; [intros x []|intros id; assert (T : @tget expent id [] = None) by (unfold tget, znth; simpl; destruct ((id <? 0) || (0 <=? id)); [reflexivity|destruct (Z.to_nat id); reflexivity]); rewrite T; reflexivity]]|].
+  lia.
 Qed.
 
 (* C08 handlers_total: from the initial state, no history of peer messages (any field values) and
